@@ -152,11 +152,11 @@ def run_lifecycle(spec):
 
 @st.composite
 def real_spec(draw):
-    kind = draw(st.sampled_from(['init_fault', 'init_fault', 'abandoned_stream', 'lifecycle']))
+    kind = draw(st.sampled_from(['init_fault', 'init_fault', 'abandoned_stream', 'abandoned_stream', 'timed_out_calls', 'lifecycle']))
     n = draw(st.sampled_from([1, 2, 3]))
     a = {'t': 'w', 'tag': 'A', 'n': n, 'pre': False, 'proc': True}
     b = {'t': 'w', 'tag': 'B', 'n': draw(st.sampled_from([1, 2])), 'pre': False, 'proc': draw(st.booleans())}
-    tree = draw(st.sampled_from(['single', 'seq', 'ens']))
+    tree = draw(st.sampled_from(['single', 'seq', 'seq', 'ens']))
     t = a if tree == 'single' else ({'t': 'seq', 'ch': [a, b]} if tree == 'seq' else {'t': 'ens', 'ff': True, 'ch': [a, b]})
     spec = {'kind': kind, 'tree': t}
     if kind == 'init_fault':
@@ -167,6 +167,12 @@ def real_spec(draw):
         spec['item_bytes'] = draw(st.sampled_from([10, 1000, 4000]))
         spec['take'] = draw(st.integers(0, 3))
         spec['delay_ms'] = draw(st.sampled_from([0, 2, 5, 5, 10]))
+    elif kind == 'timed_out_calls':
+        # requests still inside the first stage when the context is left, with intermediate results beyond an OS pipe buffer
+        spec['n_calls'] = draw(st.sampled_from([1, 2, 3]))
+        spec['item_bytes'] = draw(st.sampled_from([10, 100_000, 300_000]))
+        spec['delay_ms'] = draw(st.sampled_from([150, 300]))
+        spec['cycles'] = draw(st.sampled_from([1, 2]))
     else:
         spec['cycles'] = 2
     return spec
@@ -214,6 +220,22 @@ def run_real(spec):
                     if got >= spec['take']:
                         break
                 it.close()
+            elif spec['kind'] == 'timed_out_calls':
+                pad = 'x' * spec['item_bytes']
+                for cyc in range(spec['cycles']):
+                    if cyc:
+                        server.__enter__()
+                    tplan = dict(plan, pad=pad, d={'A': spec['delay_ms'] / 1000.0})
+                    for i in range(spec['n_calls']):
+                        try:
+                            server.call(('V', (cyc, i), tplan, ()), timeout=0.02)
+                            res.setdefault('not_timed_out', []).append((cyc, i))
+                        except TimeoutError:
+                            pass
+                    if cyc + 1 < spec['cycles']:
+                        server.__exit__(None, None, None)
+                        time.sleep(0.1)
+                        res.setdefault('between', []).append((live_children(), census()))
             else:
                 for cyc in range(spec.get('cycles', 1)):
                     if cyc:
@@ -253,8 +275,11 @@ def run_real(spec):
             raise Violation('exit_raised', repr(res['exit_exc']), signature=['exit_raised'])
         if res['children'] or res['threads']:
             raise Violation('alive_after_exit', f"after __exit__: processes {res['children']} threads {res['threads']}", signature=['alive_after_exit', 'real'])
+        for ch, th in res.get('between', []):
+            if ch or th:
+                raise Violation('alive_after_exit', f'after the first __exit__ (requests timed out, then exit): processes {ch} threads {th}', signature=['alive_after_exit', 'real'])
     return CaseInfo(
-        nontrivial=(spec['kind'] == 'init_fault' and tuple(spec['fault']) != positions(spec['tree'])[0]) or spec['kind'] == 'abandoned_stream',
+        nontrivial=(spec['kind'] == 'init_fault' and tuple(spec['fault']) != positions(spec['tree'])[0]) or spec['kind'] in ('abandoned_stream', 'timed_out_calls'),
         descriptor=spec,
         classes=('real', spec['kind']),
         sample=spec,
@@ -268,12 +293,12 @@ def _warm():
 RULE = (
     'F1 (fault enumeration): generated thread-servlet trees (<=7 workers); every (worker node, worker index) init-failure position + the no-failure case; __enter__ must raise that worker\'s error and leave no thread running. '
     'F2: enter -> C02-style workload (failures, short timeouts, abandoned streams; optionally left with abandoned work in flight) -> exit -> re-enter the same object -> fresh workload -> exit, 2-3 cycles; exit returns, nothing left, re-entered server answers with the reference result. '
-    'F3 (real): ProcessServlet trees: init faults, abandoned streams of 20-600 items of 10 B-4 kB, enter/exit/enter. '
+    'F3 (real): ProcessServlet trees: init faults, abandoned streams of 20-600 items of 10 B-4 kB, 1-3 timed-out calls whose 10 B-300 kB intermediate results are still in the first stage at exit (then re-entry), enter/exit/enter. '
     'Non-trivial: failure position not the first worker (F1); >=1 request outstanding/abandoned at exit (F2); distinct by (tree, position set / workload, schedule prefix).'
 )
 
 FAMILIES = [
     Family('F1_init_faults', 'sim', tree_only(), run_init_faults, quick=300, thorough=15_000, shards_quick=10, rule=RULE, setup=_warm),
     Family('F2_lifecycle', 'sim', lifecycle_spec(), run_lifecycle, quick=1500, thorough=80_000, shards_quick=10, rule=RULE, setup=_warm),
-    Family('F3_processes', 'real', real_spec(), run_real, quick=16, thorough=400, shards_quick=4, shards_thorough=8, rule=RULE, shrink=False),
+    Family('F3_processes', 'real', real_spec(), run_real, quick=32, thorough=400, shards_quick=8, shards_thorough=8, rule=RULE, shrink=False),
 ]
